@@ -1,4 +1,5 @@
 (* C20 - schema paths match instance paths; partial decoding equals the full result. *)
+From XV Require SubstPath SubstPathProofs.
 From XV Require Import Base Tree SchemaPath SchemaPathProofs.
 
 Theorem C20_find_governs : forall a d t k fuel,
@@ -48,3 +49,19 @@ Theorem C20_first_match_refuted :
     decode_selected_first d t p a <> subdata (decode (Some d) t) a.
 Proof. exact first_match_refuted. Qed.
 Print Assumptions C20_first_match_refuted.
+
+(* ---- paths through members of substitution groups (model: SubstPath.v; repairs c10bc3a and its completion) *)
+Theorem C20_lookup_from_parent_is_governing : forall s d names,
+  SubstPath.wf_smap s -> SubstPath.get_parent s d names = SubstPath.governing_path s d names.
+Proof. exact SubstPathProofs.get_parent_is_governing. Qed.
+Print Assumptions C20_lookup_from_parent_is_governing.
+
+Theorem C20_head_lookup_refuted : exists s d names g,
+  SubstPath.wf_smap s /\ SubstPath.governing_path s d names = Some g /\ SubstPath.get_old s d names = None.
+Proof. exact SubstPathProofs.get_old_refuted. Qed.
+Print Assumptions C20_head_lookup_refuted.
+
+Theorem C20_fallback_only_refuted : exists s d names g,
+  SubstPath.wf_smap s /\ SubstPath.governing_path s d names = Some g /\ SubstPath.get_new s d names <> Some g.
+Proof. exact SubstPathProofs.fallback_only_refuted. Qed.
+Print Assumptions C20_fallback_only_refuted.
